@@ -1,6 +1,119 @@
 import TabulaModel.Util
-namespace Tabula.C16H
+import TabulaModel.Model.Docx
+import TabulaModel.Model.Odt
+/-
+Line protocol for C16.
 
-def handle (_op : String) (_args : List String) : String := "bad-op"
+  c16.docx <document.xml tree> <styles.xml tree | ->
+  c16.odt  <content.xml tree>  <styles.xml tree | ->
+
+tree := '(' hex(tag) { '@' hex(attr) '=' hex(value) } { tree | '\'' hex(text) } ')'
+(hex of the empty string is "-").
+
+reply := <n> <elem>;<elem>;…      (n = number of elements)
+  paragraph  p:<h<level>|->:<list|->:<hex text>     docx list = <hex numId>.<level>, odt list = L<level>
+  table      t:<row>/<row>…   row = <cell>,<cell>…  cell = <hex text>.<colSpan>.<rowSpan>.<0|1>
+             (flag: docx vertical-merge continuation, odt covered cell)
+-/
+namespace Tabula.C16H
+open Tabula Tabula.Xml
+
+def isHexChar (c : Char) : Bool := (hexDigitVal c).isSome || c == '-'
+
+/-- read a hex atom (possibly "-") from the front of the input -/
+def takeHex (cs : List Char) : Option (Str × List Char) :=
+  let h := cs.takeWhile isHexChar
+  let rest := cs.dropWhile isHexChar
+  match unhex (String.ofList h) with
+  | some bs => some (bs.map (·.toNat), rest)
+  | none => none
+
+/-- attributes: { '@' hex '=' hex } -/
+partial def parseAttrs (cs : List Char) (acc : List (Str × Str)) : Option (List (Str × Str) × List Char) :=
+  match cs with
+  | '@' :: rest =>
+    match takeHex rest with
+    | some (k, '=' :: rest2) =>
+      match takeHex rest2 with
+      | some (v, rest3) => parseAttrs rest3 ((k, v) :: acc)
+      | none => none
+    | _ => none
+  | _ => some (acc.reverse, cs)
+
+mutual
+partial def parseNode (cs : List Char) : Option (Node × List Char) :=
+  match cs with
+  | '(' :: rest =>
+    match takeHex rest with
+    | some (tag, rest1) =>
+      match parseAttrs rest1 [] with
+      | some (attrs, rest2) =>
+        match parseKids rest2 [] with
+        | some (kids, rest3) => some (.elem tag attrs kids, rest3)
+        | none => none
+      | none => none
+    | none => none
+  | '\'' :: rest =>
+    match takeHex rest with
+    | some (s, rest1) => some (.text s, rest1)
+    | none => none
+  | _ => none
+partial def parseKids (cs : List Char) (acc : List Node) : Option (List Node × List Char) :=
+  match cs with
+  | ')' :: rest => some (acc.reverse, rest)
+  | [] => none
+  | _ =>
+    match parseNode cs with
+    | some (n, rest) => parseKids rest (n :: acc)
+    | none => none
+end
+
+def parseTree (s : String) : Option Node :=
+  match parseNode s.toList with
+  | some (n, []) => some n
+  | _ => none
+
+/-- "-" = part absent -/
+def parseOptTree (s : String) : Option (Option Node) :=
+  if s == "-" then some none else (parseTree s).map some
+
+def hexS (s : Str) : String := hex (s.map UInt8.ofNat)
+
+def b01 (b : Bool) : String := if b then "1" else "0"
+
+def hd (h : Option Nat) : String := match h with | some l => s!"h{l}" | none => "-"
+
+def dumpDocxCell (c : Docx.Cell) : String := s!"{hexS c.text}.{c.colSpan}.{c.rowSpan}.{b01 c.cont}"
+def dumpOdtCell (c : Odt.Cell) : String := s!"{hexS c.text}.{c.colSpan}.{c.rowSpan}.{b01 c.covered}"
+
+def dumpDocx (e : Docx.Elem) : String :=
+  match e with
+  | .para p =>
+    let l := match p.list with | some (id, lv) => s!"{hexS id}.{lv}" | none => "-"
+    s!"p:{hd p.heading}:{l}:{hexS p.text}"
+  | .table rows => "t:" ++ "/".intercalate (rows.map fun r => ",".intercalate (r.map dumpDocxCell))
+
+def dumpOdt (e : Odt.Elem) : String :=
+  match e with
+  | .para p =>
+    let l := match p.list with | some lv => s!"L{lv}" | none => "-"
+    s!"p:{hd p.heading}:{l}:{hexS p.text}"
+  | .table rows => "t:" ++ "/".intercalate (rows.map fun r => ",".intercalate (r.map dumpOdtCell))
+
+def handle (op : String) (args : List String) : String :=
+  match op, args with
+  | "c16.docx", [doc, styles] =>
+    match parseTree doc, parseOptTree styles with
+    | some d, some st =>
+      let els := Docx.elements d st
+      s!"{els.length} {";".intercalate (els.map dumpDocx)}"
+    | _, _ => "bad-op"
+  | "c16.odt", [content, styles] =>
+    match parseTree content, parseOptTree styles with
+    | some d, some st =>
+      let els := Odt.elements d st
+      s!"{els.length} {";".intercalate (els.map dumpOdt)}"
+    | _, _ => "bad-op"
+  | _, _ => "bad-op"
 
 end Tabula.C16H
